@@ -18,20 +18,11 @@ Inductive nframe : (node -> node) -> Prop :=
     visible k = true -> nframe NC -> nframe (fun x => NColl mid n (a1 ++ (k, NC x) :: a2))
 | NFTuple mid a1 k a2 NC :
     visible k = true -> nframe NC -> nframe (fun x => NTuple mid (a1 ++ (k, NC x) :: a2))
-(* operands of arithmetic priors: under their caller-derived attribute names while the classes declare
-   no identifier fields, under left / right / prior once they do *)
-| NFBinopL mid c ln rn r NC :
-    compound_idf = None -> visible ln = true -> ln <> rn -> nframe NC -> nframe (fun x => NBinop mid c ln rn (NC x) r)
-| NFBinopR mid c ln rn l NC :
-    compound_idf = None -> visible rn = true -> nframe NC -> nframe (fun x => NBinop mid c ln rn l (NC x))
-| NFUnop mid c pn NC :
-    modified_idf = None -> visible pn = true -> nframe NC -> nframe (fun x => NUnop mid c pn (NC x))
-| NFBinopL' mid c ln rn r NC fs :
-    compound_idf = Some fs -> mem "left" fs = true -> nframe NC -> nframe (fun x => NBinop mid c ln rn (NC x) r)
-| NFBinopR' mid c ln rn l NC fs :
-    compound_idf = Some fs -> mem "right" fs = true -> nframe NC -> nframe (fun x => NBinop mid c ln rn l (NC x))
-| NFUnop' mid c pn NC fs :
-    modified_idf = Some fs -> mem "prior" fs = true -> nframe NC -> nframe (fun x => NUnop mid c pn (NC x))
+(* operands of arithmetic priors are read through the declared identifier fields left / right / prior,
+   whatever attribute names the caller's variables gave them *)
+| NFBinopL mid c ln rn r NC : nframe NC -> nframe (fun x => NBinop mid c ln rn (NC x) r)
+| NFBinopR mid c ln rn l NC : nframe NC -> nframe (fun x => NBinop mid c ln rn l (NC x))
+| NFUnop mid c pn NC : nframe NC -> nframe (fun x => NUnop mid c pn (NC x))
 | NFInst c cargs ex a1 k a2 NC :
     visible k = true -> mem k ("self" :: cargs) && negb (mem k (excl_list ex)) = true ->
     nframe NC -> nframe (fun x => NInst c cargs ex (a1 ++ (k, NC x) :: a2)).
@@ -43,10 +34,8 @@ Lemma nframe_frame : forall NC, nframe NC -> exists C, frame C /\ forall x, reif
 Proof.
   intros NC H.
   induction H as [|mid lbl cls cargs a1 k a2 NC Hv HN [C [FC E]]|mid n a1 k a2 NC Hv HN [C [FC E]]
-                 |mid a1 k a2 NC Hv HN [C [FC E]]|mid c ln rn r NC Hc Hv Hne HN [C [FC E]]
-                 |mid c ln rn l NC Hc Hv HN [C [FC E]]|mid c pn NC Hc Hv HN [C [FC E]]
-                 |mid c ln rn r NC fs Hc Hm HN [C [FC E]]|mid c ln rn l NC fs Hc Hm HN [C [FC E]]
-                 |mid c pn NC fs Hc Hm HN [C [FC E]]
+                 |mid a1 k a2 NC Hv HN [C [FC E]]
+                 |mid c ln rn r NC HN [C [FC E]]|mid c ln rn l NC HN [C [FC E]]|mid c pn NC HN [C [FC E]]
                  |c cargs ex a1 k a2 NC Hv Hs HN [C [FC E]]].
   - exists (fun x => x). split; [constructor | reflexivity].
   - exists (fun y => OInst "Model" info_mo
@@ -67,37 +56,18 @@ Proof.
     + apply FInst; [exact Hv | reflexivity | left; reflexivity | exact FC].
     + intro x. cbn [reify]. rewrite reify_go, reify_entries_app. cbn [reify_entries map fst snd].
       rewrite E. reflexivity.
-  - exists (fun y => OInst c info_mo ([("id", OInt mid)] ++ (ln, C y) :: [(rn, reify r)])).
+  - exists (fun y => OInst c (info_fields ["left"; "right"] true) ([("id", OInt mid)] ++ ("left", C y) :: [("right", reify r)])).
     split.
-    + apply FInst; [exact Hv | reflexivity | left; reflexivity | exact FC].
-    + intro x. cbn [reify]. rewrite Hc. destruct (String.eqb ln rn) eqn:Eq.
-      * apply String.eqb_eq in Eq. contradiction.
-      * rewrite E. reflexivity.
-  - destruct (String.eqb ln rn) eqn:Eq.
-    + exists (fun y => OInst c info_mo ([("id", OInt mid)] ++ (rn, C y) :: [])).
-      split.
-      * apply FInst; [exact Hv | reflexivity | left; reflexivity | exact FC].
-      * intro x. cbn [reify]. rewrite Hc, Eq. apply String.eqb_eq in Eq. subst rn. rewrite E. reflexivity.
-    + exists (fun y => OInst c info_mo ([("id", OInt mid); (ln, reify l)] ++ (rn, C y) :: [])).
-      split.
-      * apply FInst; [exact Hv | reflexivity | left; reflexivity | exact FC].
-      * intro x. cbn [reify]. rewrite Hc, Eq, E. reflexivity.
-  - exists (fun y => OInst c info_mo ([("id", OInt mid)] ++ (pn, C y) :: [])).
+    + apply FInst; [reflexivity | reflexivity | right; cbn; intros [F|[]]; discriminate F | exact FC].
+    + intro x. cbn [reify]. rewrite compound_fields_declared, E. reflexivity.
+  - exists (fun y => OInst c (info_fields ["left"; "right"] true) ([("id", OInt mid); ("left", reify l)] ++ ("right", C y) :: [])).
     split.
-    + apply FInst; [exact Hv | reflexivity | left; reflexivity | exact FC].
-    + intro x. cbn [reify]. rewrite Hc, E. reflexivity.
-  - exists (fun y => OInst c (info_fields fs true) ([("id", OInt mid)] ++ ("left", C y) :: [("right", reify r)])).
+    + apply FInst; [reflexivity | reflexivity | right; cbn; intros [F|[F|[]]]; discriminate F | exact FC].
+    + intro x. cbn [reify]. rewrite compound_fields_declared, E. reflexivity.
+  - exists (fun y => OInst c (info_fields ["prior"] true) ([("id", OInt mid)] ++ ("prior", C y) :: [])).
     split.
-    + apply FInst; [reflexivity | exact Hm | right; cbn; intros [F|[]]; discriminate F | exact FC].
-    + intro x. cbn [reify]. rewrite Hc, E. reflexivity.
-  - exists (fun y => OInst c (info_fields fs true) ([("id", OInt mid); ("left", reify l)] ++ ("right", C y) :: [])).
-    split.
-    + apply FInst; [reflexivity | exact Hm | right; cbn; intros [F|[F|[]]]; discriminate F | exact FC].
-    + intro x. cbn [reify]. rewrite Hc, E. reflexivity.
-  - exists (fun y => OInst c (info_fields fs true) ([("id", OInt mid)] ++ ("prior", C y) :: [])).
-    split.
-    + apply FInst; [reflexivity | exact Hm | right; cbn; intros [F|[]]; discriminate F | exact FC].
-    + intro x. cbn [reify]. rewrite Hc, E. reflexivity.
+    + apply FInst; [reflexivity | reflexivity | right; cbn; intros [F|[]]; discriminate F | exact FC].
+    + intro x. cbn [reify]. rewrite modified_fields_declared, E. reflexivity.
   - exists (fun y => OInst c (info_plain cargs ex) (reify_entries a1 ++ (k, C y) :: reify_entries a2)).
     split.
     + apply FInst; [exact Hv | | left; destruct ex; reflexivity | exact FC].
